@@ -2158,6 +2158,25 @@ def _tail_recursion_to_loops(tree):
     return changed
 
 
+def _canon_super(tree):
+    """super(C, self) written inside a method of class C (self = its first parameter) is the zero-argument super()"""
+    changed = False
+    for c in ast.walk(tree):
+        if not isinstance(c, ast.ClassDef):
+            continue
+        for m in c.body:
+            if not isinstance(m, ast.FunctionDef) or not m.args.args or any(isinstance(d, ast.Name) and d.id == 'staticmethod' for d in m.decorator_list):
+                continue
+            slf = m.args.args[0].arg
+            nested = {id(y) for d in ast.walk(m) if isinstance(d, (ast.FunctionDef, ast.Lambda, ast.ClassDef)) and d is not m for y in ast.walk(d)}
+            for x in ast.walk(m):
+                if isinstance(x, ast.Call) and isinstance(x.func, ast.Name) and x.func.id == 'super' and len(x.args) == 2 and not x.keywords and id(x) not in nested \
+                        and isinstance(x.args[0], ast.Name) and x.args[0].id == c.name and isinstance(x.args[1], ast.Name) and x.args[1].id == slf:
+                    x.args = []
+                    changed = True
+    return changed
+
+
 def _split_chained_assignments(tree):
     """a = b = E  ->  a = E ; b = a        (plain names; E is evaluated once, the targets are bound left to right)"""
     class T(ast.NodeTransformer):
@@ -2250,6 +2269,7 @@ def normalize_module(tree, modname):
     if not has_np:
         spell.math_aliases = ()
     _split_chained_assignments(tree)
+    _canon_super(tree)
     _tail_recursion_to_loops(tree)
     from . import devirt
     devirt.flatten_private_bases(tree)
